@@ -14,8 +14,9 @@ PROPS = {
         assumptions=["the wall clock returns a time whose Unix seconds fit int64"],
     ),
     "C02": dict(
-        lean=["Rscp.Props.C02", "Rscp.Tie.Reader"],
-        streams=[dict(name="any", quick=120, thorough=3000, thorough_seeds=3)],
+        lean=["Rscp.Props.C02", "Rscp.Props.C09", "Rscp.Tie.Reader", "Rscp.Tie.Client"],
+        streams=[dict(name="any", quick=120, thorough=3000, thorough_seeds=3),
+                 dict(name="hist", quick=150, thorough=3000, thorough_seeds=2)],
         trusted_base=CODEC_TB,
         assumptions=["'promptly' is shown as: the model's recursion stays within fuel = input length + 2; wall-clock per case is bounded by a 20 s watchdog in the harness"],
     ),
@@ -87,7 +88,8 @@ PROPS = {
     ),
     "C11": dict(
         lean=["Rscp.Props.C11", "Rscp.Tie.Log", "Rscp.Tie.Client"],
-        streams=[dict(name="log", quick=300, thorough=3000, thorough_seeds=2)],
+        streams=[dict(name="log", quick=300, thorough=3000, thorough_seeds=2),
+                 dict(name="clilog", quick=1, thorough=1, thorough_seeds=1)],
         trusted_base=["fmt's %v/%s/%+v/%#v rendering and logrus level filtering are modelled only as far as the theorems need (which records are emitted at a level; that []Message renders through Message.String) and validated by the stream `log`",
                       "classification of the package's log call sites by payload (Model/Log.lean siteClass) is by hand; the site list itself is regenerated and frozen by Tie/Log"],
     ),
@@ -104,5 +106,19 @@ PROPS = {
         trusted_base=["encoding/json's printing of leaves: modelled only as far as 'can it be printed' (NaN/Inf, year range) and 'integral float below 1e21 prints as an integer'; the digits of non-integral floats and of time stamps are abstracted (tokens F, T) on both sides",
                       "Go's Time.Year() over the whole int64 range is modelled (goYear) and validated by the stream's time-edge cases",
                       "the response reaches the formatter through the verif loop of the e3dc binary (overlay), which decodes a plaintext frame with rscp.Read"],
+    ),
+    "C12": dict(
+        lean=["Rscp.Props.C12", "Rscp.Tie.JsonIn", "Rscp.Tie.Vocab", "Rscp.Tie.Validate"],
+        streams=[dict(name="jsonin", quick=300, thorough=6000, thorough_seeds=2)],
+        trusted_base=["encoding/json: how a JSON text becomes a tree, how a tree is stored into interface{} / uint32 / a struct with case-insensitive field names (modelled, validated by the stream); the model works on JSON trees, malformed TEXT is judged by the Go-side oracle only",
+                      "strconv.ParseFloat, RFC 3339 parsing, go-conv number→bool/string coercions: parameters of the model (JsonLib), universally quantified in the theorems; the driver instantiates them with a correctly rounded conversion and an RFC 3339 parser of its own, validated against Go on every run",
+                      "the real functions are reached through the verif loop of the e3dc binary (overlay in package main)"],
+    ),
+    "C15": dict(
+        lean=["Rscp.Props.C15", "Rscp.Tie.Cli", "Rscp.Tie.JsonIn", "Rscp.Tie.JsonOut", "Rscp.Tie.Client"],
+        streams=[dict(name="cli", quick=60, thorough=1500, thorough_seeds=2)],
+        trusted_base=["jnovack/flag and checkFlags: their outcome class (help / version / unusable / ok) is an INPUT of the model; the stream runs the real binary for every class",
+                      "os-level behaviour (exit status, stdout/stderr of a child process) is observed, not modelled",
+                      "the fake device is the harness's independent peer on loopback TCP"],
     ),
 }
